@@ -940,4 +940,46 @@ example : ∀ re, (findallTop 20 fresh exTailL "//*/name/sub".toList re).res =
       ("//x/name[2][0]/sub".toList, .str ['b']), ("//y/name/sub".toList, .str ['c'])]) := by
   decide +kernel
 
+
+/-- **`'//*/name/sub'` on a list root (`n0list`), lists under `name` included**: exactly the pairs of the DFS
+reference `tailOfL sub (descV name root)`, keys `"//" ++` rendered position (`//[0]/name[1][0]/sub`),
+document order -/
+theorem C19_descendant_tail_lists_list_root (cls : Cls) (xs : List Val) (name sub : Str)
+    (hn : PlainKey name) (hs : PlainKey sub)
+    (hk : KeysOkV (.list cls xs)) (hc : ContOkV (.list cls xs)) (re : Bool := true) :
+    ∃ n, ∀ fuel ≥ n,
+      (findallTop fuel fresh (.list cls xs) (['/', '/', '*', '/'] ++ name ++ ['/'] ++ sub) re).res =
+        .ok (some ((tailOfL sub (descV name (.list cls xs))).map (fun pv => ('/' :: '/' :: renderPos pv.1, pv.2)))) := by
+  obtain ⟨n, hN⟩ := fatl_descendant_list re hn hs cls xs hk hc
+  refine ⟨n, fun fuel hf => ?_⟩
+  show (fa re fuel _ (tokens _) [] []).res = _
+  rw [fat_tokens hn hs]
+  exact hN fuel hf
+
+/-- a list root: a dictionary whose `name` is a list (dictionary, nested list, dictionary without `sub`),
+and a nested list with a dictionary whose `name` is a dictionary -/
+def exTailLR : Val :=
+  .list .n0 [.dict .n0 [(['n', 'a', 'm', 'e'], .list .n0 [.dict .n0 [(['s', 'u', 'b'], .str ['a'])],
+                .list .n0 [.dict .n0 [(['s', 'u', 'b'], .str ['b'])]], .dict .n0 [(['o'], .int 1)]])],
+             .list .n0 [.dict .n0 [(['n', 'a', 'm', 'e'], .dict .n0 [(['s', 'u', 'b'], .str ['c'])])]]]
+
+-- non-vacuity of `C19_descendant_tail_lists_list_root`; the real code returns
+-- `{'//[0]/name[0]/sub': 'a', '//[0]/name[1][0]/sub': 'b', '//[1][0]/name/sub': 'c'}` (both modes)
+example : KeysOkV exTailLR ∧ ContOkV exTailLR := by
+  have pk : ∀ k : Str, k ≠ [] → (∀ c ∈ k, plainChar c = true) → k ≠ ['.', '.'] → PlainKey k :=
+    fun k h1 h2 h3 => ⟨h1, h2, h3⟩
+  simp only [exTailLR, KeysOkV, KeysOkK, KeysOkL, ContOkV, ContOkK, ContOkL, lookup, FindAll.isContainer]
+  refine ⟨?_, by decide⟩
+  repeat' apply And.intro
+  all_goals first | exact pk _ (by decide) (by decide) (by decide) | trivial | decide
+example : tailOfL ['s', 'u', 'b'] (descV ['n', 'a', 'm', 'e'] exTailLR) =
+    [([.idx 0, .key ['n', 'a', 'm', 'e'], .idx 0, .key ['s', 'u', 'b']], .str ['a']),
+     ([.idx 0, .key ['n', 'a', 'm', 'e'], .idx 1, .idx 0, .key ['s', 'u', 'b']], .str ['b']),
+     ([.idx 1, .idx 0, .key ['n', 'a', 'm', 'e'], .key ['s', 'u', 'b']], .str ['c'])] := by
+  simp [exTailLR, descV, descK, descL, lookup, tailOfL, tl1L, subV, subL]
+example : ∀ re, (findallTop 20 fresh exTailLR "//*/name/sub".toList re).res =
+    .ok (some [("//[0]/name[0]/sub".toList, .str ['a']), ("//[0]/name[1][0]/sub".toList, .str ['b']),
+      ("//[1][0]/name/sub".toList, .str ['c'])]) := by
+  decide +kernel
+
 end N0.C19
